@@ -186,7 +186,24 @@ def execute(engine_cls, prop, *, seed=None, cfg=None, ops=None, findings=None, t
                 if op is None:
                     break
             res.ops.append(op)
-            vs = eng.step(op)
+            try:
+                vs = eng.step(op)
+            except (HarnessError, HarnessHang):
+                raise
+            except Exception as e:
+                # an exception raised INSIDE the library under test while an oracle was reading it (the last frame of the
+                # traceback lies in the library's source tree) is a verdict on the library, not harness trouble: the
+                # library's public reads are expected to answer
+                tb = e.__traceback__
+                last = None
+                while tb is not None:
+                    last = tb.tb_frame.f_code.co_filename
+                    tb = tb.tb_next
+                if last and os.path.realpath(last).startswith(os.path.realpath(REPO_SRC) + os.sep) and i > 0:
+                    vs = [Violation(prop, "library-raised-while-observed", op.get("op", "?") if op.get("op") != "read" else "read:" + str(op.get("kind")), [], type(e).__name__,
+                                    f"{type(e).__name__}: {e} (raised in {os.path.relpath(last, os.path.realpath(REPO_SRC))} while the step's oracle was reading the document)")]
+                else:
+                    raise
             log.update(json.dumps(op, sort_keys=True, default=str).encode())
             log.update(eng.outcome().encode())
             log.update(eng.state_digest().encode())
